@@ -169,7 +169,8 @@ bool Parser::parseStatement(StatementSyntax*& stmt, StatementContext stmtCtx)
                     PSY_ASSERT_3(stmt->asExpressionStatement(),
                                      return false,
                                      "invalid expression-statement");
-                    stmt->asExpressionStatement()->expr_->extKwTkIdx_ = extKwTkIdx;
+                    if (stmt->asExpressionStatement()->expr_)
+                        stmt->asExpressionStatement()->expr_->extKwTkIdx_ = extKwTkIdx;
                     break;
 
                 case SyntaxKind::DeclarationStatement:
